@@ -60,7 +60,39 @@ class CallMixin:
                 kwn = [k for k in node.keywords]
                 for st3, kvals in self.ev_list([k.value for k in kwn], st2, frame):
                     kwargs = {k.arg: v for k, v in zip(kwn, kvals)}
+                    self.at_call_arg_hooks(node, st3, frame, args, kwargs)
                     yield from self.call(fv, args, kwargs, st3, frame, node)
+
+    def at_call_arg_hooks(self, node, st, frame, args, kwargs):
+        """at_calls entries keyed '<callee>@args': assertions about the ACTUAL arguments of a call site, evaluated in the
+        caller's state with _nargs, _arg0.._argN (positional) and _kw_<name> (keyword) bound to the evaluated arguments."""
+        if st.spec or not frame.verifying or frame.contract is None:
+            return
+        view = getattr(frame, 'view', None)
+        ac = view.at_calls if view is not None else frame.contract.at_calls
+        if not ac:
+            return
+        f = node.func
+        text = ast.unparse(f)
+        specs = ac.get(text + '@args')
+        if specs is None and isinstance(f, ast.Attribute):
+            specs = ac.get(f.attr + '@args')
+        if specs is None and isinstance(f, ast.Name):
+            specs = ac.get(f.id + '@args')
+        if not specs:
+            return
+        name = f.attr if isinstance(f, ast.Attribute) else text
+        sp = st.fork()
+        sp.spec = True
+        sp.pc = st.pc
+        sp.locals = dict(st.locals)
+        sp.locals['_nargs'] = PyConst(len(args))
+        for i, a in enumerate(args):
+            sp.locals['_arg%d' % i] = a
+        for k, v in kwargs.items():
+            sp.locals['_kw_' + k] = v
+        for i, e in enumerate(specs):
+            self.oblige(st, self.spec_bool(e, sp, frame), 'at-call-args[%s]#%d' % (name, i), frame, node, e)
 
     def at_call_hooks(self, node, st, frame):
         """at_calls of the contract under verification: assertions (and ghost statements) attached to call sites,
